@@ -1,7 +1,7 @@
 (* C06 - timing of the retransmission machine (proofs): nothing after the outcome, the firing
    loop always terminates within its bound, soundness of the reported wait, and the exact
    schedule under a punctual driver. *)
-From LibcoapV Require Import Base.Tactics Sched.FixedPoint Sched.SendQueue Sched.SendQueueProofs
+From LibcoapV Require Import Base.Tactics Sched.FixedPoint Sched.FixedPointProofs Sched.SendQueue Sched.SendQueueProofs
   Sched.Retransmit Sched.RetransmitProofs.
 From Coq Require Import Sorting.Permutation.
 Local Open Scope Z_scope.
@@ -190,8 +190,7 @@ Proof.
     + apply rt_enqueue_tinv.
       * destruct T as (W & B & F). split; [exact W|]. split; [exact B|exact F].
       * unfold rt_nbound. cbn [qn_cnt qn_max qn_timeout]. cbn in Hev.
-        split; [lia|]. split; [lia|]. unfold fp_calc_timeout, fp_calc_q, fp_u32.
-        apply Z.mod_pos_bound. lia.
+        split; [lia|]. split; [lia|]. unfold fp_calc_timeout. apply fp_calc_q_nonneg.
     + intros [X|[X|[]]]; discriminate.
   - unfold rt_tick. pose proof (rt_fire_all_ok st T) as H.
     destruct (rt_fire_all st) as [st1 o]. destruct H as (NF & _ & T1 & _).
